@@ -501,6 +501,95 @@ def check_r074(fx, rep, cg):
             rep.oblige(ok, "R07.4", f"most-recent:{name.split('::')[-1]}", F.loc(b["span"]), f"`{name}` does not return the most recent generation ({[m for m in ms if m in ('first','last','nth','get')]})", sample={"rule": "R07.4", "fn": name, "returns": "last()"})
 
 
+def check_byte_order(fx, rep, cg):
+    """A native integer (an instruction pointer, a size, a constant of the implementation) becomes a word in native order.
+    The byte-swapping conversions of the word type exist for big-endian *data*; nothing on the analysis path may push a
+    number through them."""
+    WORD = "vm::value::known::KnownWord"
+    swappers = {}
+    n_methods = 0
+    for b in fx.fn_bodies():
+        if b.get("impl_self") != WORD:
+            continue
+        n_methods += 1
+        names = [F.strip_generics(F.callee(c) or F.callee_def(c) or "") for c, _ in F.calls(b["hir"]["value"])]
+        if any(n.endswith(("::swap_bytes", "::to_be", "::from_be")) and ("ethnum" in n or "U256" in n or "I256" in n) for n in names):
+            swappers[b["def"]] = [n.split("::")[-1] for n in names if n.endswith(("::swap_bytes", "::to_be", "::from_be"))]
+    rep.floor("R07.3", n_methods, 20, "methods of the known-word type scanned for byte swapping")
+    rep.floor("R07.3", len(swappers), 1, "byte-swapping conversions of the known-word type")
+    from .c01 import reachable_bodies
+
+    _entries, bodies = reachable_bodies(fx, cg)
+    users = []
+    for name in sorted(bodies):
+        b = fx.body(name)
+        if not b or not b.get("hir") or b.get("impl_self") == WORD:
+            continue
+        for c, ps in F.calls(b["hir"]["value"]):
+            for t in cg.resolve_local(c):
+                if t in swappers:
+                    users.append((b, c, t))
+    rep.oblige(
+        not users,
+        "R07.3",
+        "byte-order",
+        F.loc(users[0][1]["span"]) if users else "-",
+        (f"`{users[0][0]['def']}` builds or reads a word through the byte-swapping conversion `{users[0][2].split('::')[-1]}`: a native number p becomes p * 2^k instead of p" if users else ""),
+        sample={"rule": "R07.3", "byte_swapping_conversions": sorted(k.split("::")[-1] for k in swappers), "callers_on_analysis_path": len(users)},
+    )
+
+
+def check_key_agreement(fx, rep, cg):
+    """Writers and readers of one keyed store (storage, memory) must normalise the key the same way before looking it up:
+    a write filed under `fold(key)` is invisible to a read that looks under `key`."""
+    from ..vmmodel import VMModel
+
+    vm = VMModel(fx, cg)
+    reach = cg.reachable({b["def"] for b in vm.opcode_execs})
+    n_fam = 0
+    for adt_name, adt in sorted(fx.adts.items()):
+        if not adt_name.startswith("vm::state") or not adt.get("variants"):
+            continue
+        flds = {f["name"] for f in adt["variants"][0]["fields"] if "HashMap<" in f["ty"] and "Vec<" in f["ty"]}
+        if not flds:
+            continue
+        family = {}
+        for b in fx.fn_bodies():
+            if b.get("impl_self") != adt_name or b["def"] not in reach:
+                continue
+            hir = b["hir"]
+            params = hir["params"]
+            if len(params) < 2 or params[1].get("p") != "Bind":
+                continue
+            if not any(n.get("k") == "Field" and n.get("field") in flds for n, _ in F.walk(hir["value"])):
+                continue
+            kty = (fx.fns.get(b["def"], {}).get("inputs") or [None, ""])[1].lstrip("&").strip()
+            if "SymbolicValue" not in kty:
+                continue
+            lid = params[1]["local"]
+            sig = set()
+            for c, ps in F.calls(hir["value"]):
+                if c.get("k") == "MethodCall" and F.local_of(F.strip(c["recv"])) == lid and (c.get("ty") or "").lstrip("&").strip() == kty and c["method"] != "clone":
+                    sig.add(c["method"])
+            # a shadowing / aliasing let of a normalised key counts through the method call above; a key that is replaced
+            # by an arbitrary expression before the lookup is caught as "normalised" too
+            family[b["def"]] = sig
+            rep.fn(b["def"])
+        if len(family) < 2:
+            continue
+        n_fam += 1
+        sigs = {frozenset(v) for v in family.values()}
+        rep.oblige(
+            len(sigs) == 1,
+            "R07.4",
+            f"key-agreement:{adt_name}",
+            F.loc(adt["span"]),
+            f"the writers and readers of `{adt_name}` do not normalise the key the same way before the lookup ({ {k.split('::')[-1]: sorted(v) for k, v in sorted(family.items())} }): a value written under one form of the key is not found under the other",
+            sample={"rule": "R07.4", "store": adt_name, "key_normalisation": {k.split("::")[-1]: sorted(v) for k, v in sorted(family.items())}},
+        )
+    rep.floor("R07.4", n_fam, 2, "keyed stores (storage, memory) with a writer and a reader on the execution path")
+
+
 def check(fx, rep, tier):
     cg = F.CallGraph(fx)
     dm = DisasmModel(fx)
@@ -510,6 +599,8 @@ def check(fx, rep, tier):
     check_r072(fx, rep, dm)
     check_r073(fx, rep, cg, dm)
     check_r074(fx, rep, cg)
+    check_key_agreement(fx, rep, cg)
+    check_byte_order(fx, rep, cg)
     # the path's storage/memory history lists every write (append-only, unconditional) — shared with C06 R06.1
     from .c06 import check_r061
     from .c18 import check_r184
